@@ -575,6 +575,34 @@ impl Node {
         Ok(result)
     }
 
+    //
+    // Removes from the ids announced by a peer for a room those of the rows that were deleted in that room.
+    // A deleted row stays deleted, whatever the order in which the row and its deletion arrive:
+    // an id that carries a deletion record in the room is never requested again
+    //
+    pub fn filter_deleted_in_room(
+        node_ids: &mut HashSet<NodeIdentifier>,
+        room_id: &Uid,
+        conn: &Connection,
+    ) -> Result<()> {
+        if node_ids.is_empty() {
+            return Ok(());
+        }
+        let ids: Vec<Uid> = node_ids.iter().map(|node| node.id).collect();
+        let query = format!(
+            "SELECT id FROM _node_deletion_log WHERE room_id = ? AND id in ({})",
+            vec!["?"; ids.len()].join(",")
+        );
+        let mut stmt = conn.prepare(&query)?;
+        let mut rows = stmt.query(params_from_iter(std::iter::once(room_id).chain(ids.iter())))?;
+        let mut deleted: HashSet<Uid> = HashSet::new();
+        while let Some(row) = rows.next()? {
+            deleted.insert(row.get(0)?);
+        }
+        node_ids.retain(|node| !deleted.contains(&node.id));
+        Ok(())
+    }
+
     pub fn filtered_by_room(
         room_id: &Uid,
         node_ids: Vec<Uid>,
